@@ -1,8 +1,14 @@
 ---------------------------- MODULE MC_ZoneFile ----------------------------
 (* Character level: every string over ten character classes is pushed,     *)
 (* octet by octet, through the reader machine (tokenizer + entry machine)  *)
-(* of ZoneFile.tla, in two contexts: as a whole file, and as the data of   *)
-(* a TXT record ("a TXT " is fed first).  m runs with the configured Dev,  *)
+(* of ZoneFile.tla, in several contexts: as a whole file, as the data of   *)
+(* a TXT record ("a TXT " is fed first), as what follows "$INCLUDE " (the  *)
+(* string scanner), as what follows an "@" at the start of a line (the     *)
+(* lone-@ recogniser and whatever delimiter ends it), and as the data of   *)
+(* an OPENPGPKEY record (the symbol converters; that alphabet has "=" and  *)
+(* the two octets of U+0080, the first character outside ASCII).  Every    *)
+(* string is also read with each completing suffix of its context.         *)
+(* m runs with the configured Dev,                                         *)
 (* md with the deviations reachable over this alphabet switched on (used   *)
 (* by the case generator for the `dev` expectation).                       *)
 EXTENDS ZoneFile, TLC, Json
@@ -16,18 +22,35 @@ vars == <<ctx, txt, m, md, act>>
 
 \* SP LF CR ( ) ; " \ 0 a
 Chars == {32, 10, 13, 40, 41, 59, 34, 92, 48, 97}
+Contexts == {"file", "txt", "inc", "at", "b64"}
+\* the alphabet of a context
+Alphabet(c) == CASE c = "inc" -> Chars \ {13, 41}
+                 [] c = "at"  -> Chars \ {13}
+                 [] c = "b64" -> {32, 10, 40, 41, 34, 92, 97, 61, 194, 128}      \* SP LF ( ) " \ a = C2 80
+                 [] OTHER -> Chars
 Origin0 == <<1, 111, 0>>                     \* "o."
 CodeDevs == {"D_charstr_entry_no_token"}     \* no '.', '$' or long numbers in this alphabet
-Prefix(c) == IF c = "txt" THEN <<97, 32, 84, 88, 84, 32>> ELSE <<>>      \* "a TXT "
+Prefix(c) == CASE c = "txt" -> <<97, 32, 84, 88, 84, 32>>                                   \* "a TXT "
+               [] c = "inc" -> W_INCLUDE \o <<32>>                                           \* "$INCLUDE "
+               [] c = "at"  -> <<AT>>                                                        \* "@"
+               [] c = "b64" -> <<97, 32, 79, 80, 69, 78, 80, 71, 80, 75, 69, 89, 32>>        \* "a OPENPGPKEY "
+               [] OTHER -> <<>>
 OwnSuffix == <<32, 84, 88, 84, 32, 120, 10>>                             \* " TXT x\n"
+\* completing suffixes: <<tag of the generated case, octets>>
+Suffixes(c) == CASE c = "file" -> {<<"own", OwnSuffix>>}
+                 [] c = "inc"  -> {<<"inc-q", <<QUOTE, LF>>>>, <<"inc-l", <<LF>>>>}
+                 [] c = "at"   -> {<<"at-own", OwnSuffix>>}
+                 [] c = "b64"  -> {<<"b64-l", <<LF>>>>, <<"b64-p", <<61, LF>>>>}
+                 [] OTHER -> {}
 
-Init == /\ ctx \in {"file", "txt"}
+Init == /\ ctx \in Contexts
         /\ txt = <<>>
         /\ m  = FeedAll(RdInit(Origin0, 1), Prefix(ctx), 1, Dev)
         /\ md = FeedAll(RdInit(Origin0, 1), Prefix(ctx), 1, CodeDevs)
         /\ act = "Init"
 
 Push(c, a) == /\ Len(txt) < MaxLen
+           /\ c \in Alphabet(ctx)
            /\ act' = a
            /\ txt' = Append(txt, c)
            /\ m'  = Feed(m, c, Dev)
@@ -42,7 +65,7 @@ PushClose     == Push(41, "PushClose")
 PushSemicolon == Push(59, "PushSemicolon")
 PushQuote     == Push(34, "PushQuote")
 PushBackslash == Push(92, "PushBackslash")
-PushWordChar  == \E c \in {48, 97} : Push(c, "PushWordChar")
+PushWordChar  == \E c \in {48, 97, 61, 194, 128} : Push(c, "PushWordChar")
 Next == PushSpace \/ PushLineFeed \/ PushOpen \/ PushClose \/ PushSemicolon
         \/ PushQuote \/ PushBackslash \/ PushWordChar
 Spec == Init /\ [][Next]_vars
@@ -63,7 +86,8 @@ OutcomeWellFormed ==
   LET o == Outcome(m, Dev)
   IN \/ o = Unmodelled \/ o = [panic |-> TRUE]
      \/ /\ DOMAIN o = {"entries", "err"}
-        /\ \A i \in 1..Len(o.entries) : Len(o.entries[i].owner) <= 255
+        /\ \A i \in 1..Len(o.entries) :
+              "owner" \in DOMAIN o.entries[i] => Len(o.entries[i].owner) <= 255
 \* position and line only move forward, one octet per step while running
 PosMonotone == [][(m.en.st = "run" /\ ~m.tk.err) => (m'.tk.pos = m.tk.pos + 1 /\ m'.tk.line >= m.tk.line)]_vars
 \* a stopped reader stays stopped with the same result
@@ -87,8 +111,9 @@ Case(c, text, o, d) ==
 
 Emit ==
   /\ Case(ctx, Prefix(ctx) \o txt, Outcome(m, {}), Outcome(md, CodeDevs))
-  /\ (ctx = "file" /\ txt # <<>>) =>
-        Case("own", txt \o OwnSuffix,
-             Outcome(FeedAll(m, OwnSuffix, 1, {}), {}),
-             Outcome(FeedAll(md, OwnSuffix, 1, CodeDevs), CodeDevs))
+  /\ txt # <<>> =>
+        \A sf \in Suffixes(ctx) :
+          Case(sf[1], Prefix(ctx) \o txt \o sf[2],
+               Outcome(FeedAll(m, sf[2], 1, {}), {}),
+               Outcome(FeedAll(md, sf[2], 1, CodeDevs), CodeDevs))
 =============================================================================
